@@ -164,6 +164,33 @@ pub fn gossip_case(i: u64, seed: u64) -> Scenario {
     sc
 }
 
+/// The observer loses BOTH remote peers in the same instant (its own uplink died): both endpoints
+/// time out in the same poll, with different last frames (one remote ran a few frames behind).
+pub fn isolated_case(i: u64, seed: u64) -> Scenario {
+    let r = mix(seed ^ 0x150a, i);
+    let mut sc = Scenario::basic(r, 3);
+    sc.max_pred = [8u8, 4, 12, 6, 3][(r % 5) as usize];
+    sc.sparse = (r >> 8) % 3 == 0;
+    let d = [0u8, 0, 1, 2][((r >> 12) % 4) as usize];
+    for p in sc.peers.iter_mut() {
+        p.delay = d;
+        p.locals = if (r >> 16) % 4 == 0 { 2 } else { 1 };
+    }
+    sc.sched = 0;
+    sc.notify_ms = 200;
+    sc.timeout_ms = [400u32, 700, 1000][((r >> 20) % 3) as usize];
+    // one remote falls k frames behind the other
+    let k = 1 + ((r >> 24) % 5) as u32;
+    let lagging = 1 + ((r >> 28) % 2) as u8;
+    sc.ops.push(Op::Pause { tick: 60, node: lagging, ticks: k });
+    let t = 110 + ((r >> 32) % 50) as u32;
+    sc.ops.push(Op::Kill { tick: t, peer: 1 });
+    sc.ops.push(Op::Kill { tick: t, peer: 2 });
+    sc.ticks = t + 1;
+    sc.settle = sc.timeout_ms / 16 + 160;
+    sc
+}
+
 pub fn eval_gossip(sc: &Scenario) -> CaseResult {
     // same oracle; the "victim" for the agreement comparison is the second one, the first is dead too
     let out = run(sc, &RunOpts::default());
@@ -227,6 +254,9 @@ pub fn run_prop(ctx: &Ctx) -> PropReport {
     rep.part(|| run_enum(ctx, "gossip_equal_amounts",
         "seeded 4-peer sessions on a loss-free zero-latency link (all survivors hold the same amount of every victim's input): one peer dies and is timed out by everybody, later a second peer dies and ONE survivor drops it explicitly at once, so the other survivor must adopt that cut-off from gossip while one of its endpoints is already disconnected; same agreement oracle, no known finding applies here",
         m, move |i| gossip_case(i, seed), eval_gossip, false));
+    rep.part(|| run_enum(ctx, "isolated_observer",
+        "seeded 3-peer sessions in which the observer loses both remote peers at the same instant, one of them a few frames behind the other: both endpoints time out in the same poll with different last frames; the single survivor's final timeline must carry, for EACH dropped player, its real inputs up to its own last frame and default/Disconnected afterwards",
+        ctx.tier.pick(600u64, 4000u64), move |i| isolated_case(i, seed), eval_gossip, false));
     rep.assumptions = vec!["agreement is an end-state claim: compared after a settle phase longer than the disconnect timeout plus gossip".into()];
     rep
 }
